@@ -29,6 +29,10 @@ CHECKS = {
          "Sessions with call/cc at operand, tail and nested positions; continuations escape, return normally, are stored in globals and re-entered 0-3 times (counter-guarded) from the same form, from procedures, loops, for-each callbacks and later top-level forms. Values, failures and output are compared form by form with the reference interpreter in three VMs.",
          "Trusts the reference interpreter's continuation model (REPL semantics for the bottom frame, pinned by the suite). Continuations receive exactly one value; map callbacks neither capture nor invoke continuations.",
          "DESIGN.md section 4, C05"),
+ "C12": ("parameterised garbage-loop templates (one per allocation kind) x live-set size x n vs 10n, oracle = plateau of heap/stack capacity (hooks) and process live bytes (counting allocator) + exactness of every collection against an independent reachability traversal",
+         "20 templates (15 in-VM loops, 5 harness-driven sequences of top-level evaluations) x live set {0,10,1000} are run for n and 10n iterations (quick n=20000, thorough 200000); heap capacity, stack capacity and live bytes after 10n must be <= 1.5x those after n plus a fixed slack, the live set's checksum must be intact, and after every collection no cell unreachable by the harness' own traversal may remain allocated.",
+         "Growth is decided at two sizes with a threshold that a one-cell-per-iteration leak exceeds several times over; live bytes come from a counting global allocator of the harness process.",
+         "DESIGN.md section 4, C12"),
  "C13": ("differential (uninterrupted vs sliced run of the same build) over generated sessions x generated budget sequences, with progress invariants from the instruction-counter hook",
          "Each generated session (call/cc productions on) is run uninterrupted in one VM and with prepare_eval + run_count(b_i) in another, for constant budgets 1..64 and random log-uniform budget sequences in 1..10^4; per-form value/failure/output and the final value of every session global must agree, every slice must stay within its budget, and the number of resumes is bounded by the uninterrupted instruction count. Constant budgets 1..64 are swept exhaustively over 8 fixed programs.",
          "The uninterrupted run is the reference (its own correctness is C01/C05's business); programs are first screened by the reference interpreter so that diverging programs are excluded.",
@@ -57,6 +61,10 @@ CHECKS = {
          "All boundary exact values in every representation at radix 2, 8, 10, 16, their neighbouring doubles and special doubles at radix 10, plus 16 x 100k (quick) / 16 x 2M (thorough) random fixnums, bignums up to 512 bits, rationals of both signs and finite doubles (by bit pattern and around the 1e10 notation switch); every printed spelling is also evaluated as a literal (#b/#o/#d/#x prefix, bare at radix 10). Exploration.",
          "Equality is the harness' (same exactness, same value; +-0.0 identified), not the SUT's. Two known-finding classes (negative fixnums / negative rationals at radix 2, 8, 16) are tolerated.",
          "DESIGN.md section 4, C16"),
+ "C18": ("proptest-driven generation of name pairs x production routes x collection events, oracle = name equality (eq? iff same string), conversion round trips, and the collector's symbol-table invariant via the reachability traversal",
+         "Pairs of names over a hostile alphabet are produced by two of seven routes (literal, quoted list, string->symbol, macro output, eval, round trips) with nothing, a forced collection, garbage plus collections, the end of the evaluation or a collection at every k-th instruction in between, the first product kept or dropped; eq? must hold exactly for equal names, both conversion round trips must be identities, and the symbol table must match the allocated symbol cells at every observed collection.",
+         "Reader-dependent routes are used only for names the reader spells as that symbol; data is injected as Cell values; forced collections use the verif hook.",
+         "DESIGN.md section 4, C18"),
  "C20": ("exhaustive enumeration over a lexeme alphabet + proptest-driven Unicode token soup against a reference bracket matcher",
          "Every string of <=5 (quick) / <=7 (thorough) lexemes over the 11-lexeme alphabet with every cursor position is checked against the harness' own tokenizer and partner search (finite space enumerated completely), plus random Unicode token soup with random cursors. Exploration: holds on everything enumerated/generated, nothing beyond.",
          "Trusts the harness' reference tokenizer/partner search; random texts use the SUT scanner for token spans (checked by C11).",
